@@ -42,6 +42,11 @@ def _networks(ns):
 
 
 def _space(gtype, nc):
+    if gtype == "grid" and nc == 4:
+        return {"type": "grid", "w": 2, "h": 2, "d": 1, "vol": 2.0, "bc": {"y": "periodical"}}
+    if gtype == "graph" and nc == 4:
+        return {"type": "graph", "nodes": [{"vol": [1.0, 8.0, 0.5, 27.0][i], "env": 0} for i in range(4)],
+                "edges": [[0, 1, 1.5, 0.75], [1, 2, 2.5, 1.25], [3, 1, 3.5, 1.75], [0, 3, 0.5, 2.0]]}
     if gtype == "grid":
         return {"type": "grid", "w": nc, "h": 1, "d": 1, "vol": 2.0,
                 "bc": {"x": "periodical"} if nc == 3 else {}}
@@ -57,7 +62,8 @@ STATE_INT = [4, 7, 2, 9, 5, 3, 8, 6, 1]
 
 def gen_cases(tier, seed0):
     seeds = list(range(1000 * seed0, 1000 * seed0 + (2 if tier == "quick" else 8)))
-    for (ns, nc) in ((2, 1), (3, 1), (2, 2), (2, 3), (3, 2)):
+    shapes = [(2, 1), (3, 1), (2, 2), (2, 3), (3, 2)] + ([(2, 4)] if tier == "thorough" else [])
+    for (ns, nc) in shapes:
         labels = "ABC"[:ns]
         for mask in range(2 ** (ns * nc)):
             # a flag is any non-zero integer (the documentation's own example sets value=5): the k-th flagged entry of
@@ -267,7 +273,7 @@ def run(ctx):
             continue
         core.merge(ctx, r)
         done += job[1] - job[0]
-    ctx.subspace("all chemostat subsets of (species,cells) in {(2,1),(3,1),(2,2),(2,3),(3,2)} (4+8+16+64+64 maps) x 3 networks x "
+    ctx.subspace("all chemostat subsets of (species,cells) in {(2,1),(3,1),(2,2),(2,3),(3,2)} (4+8+16+64+64 maps; thorough adds (2,4): 256 maps on a 2x2 grid / 4-node graph) x 3 networks x "
                  "{grid,graph}; per system: kinetics (both modes), make_dxdtf (single cell), apply_reaction at every position "
                  "x n in {1,-1,2}, Euler (5 steps), tau-leap and Gillespie x seed window",
                  nplain, min(done, nplain), exhaustive=(done == len(_CASES)))
